@@ -20,7 +20,7 @@ BOUNDS = {'quick': 'LinearCredit after,steps in 1..6 x any minimum x any integer
                    'GeometricCredit any factor in [0,1], attempts <= 8; application: single results and lists of 2-3 entries',
           'thorough': 'GeometricCredit attempts <= 12; application with lists of 3 full-range entries and more palette values'}
 OUTSIDE = ['GeometricCredit beyond the attempt bound', 'IEEE rounding of products', 'percent rendering of symbolic credits (checked on concrete palette values)']
-DEADLINE = {'quick': 150, 'thorough': 1500}
+DEADLINE = {'quick': 600, 'thorough': 1500}
 FUNCS = ['attemptcredit.LinearCredit.__call__', 'attemptcredit.GeometricCredit.__call__', 'attemptcredit.ReciprocalCredit.__call__',
          'AbstractGrader.apply_attempt_based_credit', 'AbstractGrader.__call__', 'AbstractGrader.grade_decimal_to_ok']
 STUBS = ['baseclasses.float / baseclasses.Decimal shadows (pass symbolic values through; Decimal only renders the percentage)',
